@@ -17,6 +17,7 @@ import hashlib
 import json
 import os
 import re
+import threading
 import time
 from unittest import mock
 
@@ -24,6 +25,9 @@ from common import Coverage, coq_eval, rng, violation
 from ref import srp_ref as R
 
 USER = "Pair-Setup"
+# exchanges run on a thread pool (the model evaluations are subprocesses); fixing the ephemeral patches a class
+# attribute, i.e. global state, so every use of the seam is serialised
+SEAM_LOCK = threading.Lock()
 PRE = "From Coq Require Import List NArith ZArith.\nFrom AHK Require Import %s.\nImport ListNotations.\n" \
       "Open Scope N_scope.\nSet Printing Depth 1000000.\nSet Printing Width 200.\n"
 
@@ -67,7 +71,7 @@ def exc_class(e):
 
 def impl_client(code: str, a: int, salt: bytes, B_b: bytes):
     import aiohomekit.crypto.srp as srp
-    with mock.patch.object(srp.SrpClient, "generate_private_key", staticmethod(lambda: a)):
+    with SEAM_LOCK, mock.patch.object(srp.SrpClient, "generate_private_key", staticmethod(lambda: a)):
         c = srp.SrpClient(USER, code)
     c.set_salt(bytearray(salt))
     c.set_server_public_key(bytes(B_b))
@@ -93,7 +97,7 @@ def impl_pair_setup(code, a, salt, B_b, M2):
     from aiohomekit.exceptions import AuthenticationError
     from aiohomekit.protocol import perform_pair_setup_part2
     from aiohomekit.protocol.tlv import TLV
-    with mock.patch.object(srp.SrpClient, "generate_private_key", staticmethod(lambda: a)):
+    with SEAM_LOCK, mock.patch.object(srp.SrpClient, "generate_private_key", staticmethod(lambda: a)):
         gen = perform_pair_setup_part2(code, "00000000-0000-0000-0000-000000000000", bytearray(salt), bytearray(B_b))
         req, _expected = next(gen)
     d = dict(req)
